@@ -389,10 +389,12 @@ func decodeFloat32Key(dec *mapDecoder, raw string) (interface{}, error) {
 	if err != nil {
 		return nil, err
 	}
-	if ret > math.MaxFloat32 || ret < -math.MaxFloat32 {
+	/* the range is checked after narrowing: a literal that rounds to MaxFloat32 is in range */
+	val := float32(ret)
+	if math.IsInf(float64(val), 0) {
 		return nil, error_value(key, dec.mapType.Key.Pack())
 	}
-	return float32(ret), nil
+	return val, nil
 }
 
 func decodeFloat64Key(dec *mapDecoder, raw string) (interface{}, error) {
